@@ -278,7 +278,7 @@ def c05(c):
     progs = [dict(src='c05_format.cpp', build='asan', variants=_t_eng_variants(3), shards={'quick': 1, 'thorough': 2})]
     if c.tier == 'thorough':
         progs.append(dict(src='c05_format.cpp', build='clang', variants=_t_eng_variants(3), shards={'thorough': 1}))
-        progs.append(dict(src='c05_format.cpp', build='memcheck', variants=_t_eng_variants(3), shards={'thorough': 2}, args=['--tier', 'quick']))
+        progs.append(dict(src='c05_format.cpp', build='memcheck', variants=[v for v in _t_eng_variants(3) if not v[0].startswith('ldouble')], shards={'thorough': 2}, args=['--tier', 'quick']))
     c.std(progs)
     for k in ('fields_compared', 'stored_generators_compared', 'checkpoints_plain', 'checkpoints_vegas', 'checkpoints_multi_channel'):
         c.require(k)
@@ -309,7 +309,7 @@ def c15(c):
     eng = ENGINES9 if c.tier == 'thorough' else ENGINES9[:3]
     progs = [dict(src='c15_rollback.cpp', build='asan', variants=_t_engine_variants(eng), shards={'quick': 2, 'thorough': 1})]
     if c.tier == 'thorough':
-        progs.append(dict(src='c15_rollback.cpp', build='memcheck', variants=_t_engine_variants(ENGINES9[:2]), shards={'thorough': 2}, args=['--tier', 'quick']))
+        progs.append(dict(src='c15_rollback.cpp', build='memcheck', variants=[v for v in _t_engine_variants(ENGINES9[:2]) if not v[0].startswith('ldouble')], shards={'thorough': 2}, args=['--tier', 'quick']))
     c.std(progs)
     for k in ('rollbacks_to_0', 'rollbacks_to_n', 'rollbacks_beyond_n', 'rollbacks_to_middle', 'reloaded_before_rollback', 'resumes_after_rollback', 'second_rollbacks_after_resume'):
         c.require(k)
